@@ -2,7 +2,7 @@
    segmentation invariance), C18_CodecProofs (framing codec) and C18_HttpProofs (HTTP). *)
 From Coq Require Import List ZArith Lia Bool Arith NArith.
 From Coq.Strings Require Import Byte.
-From Muduo Require Import Base_Bytes Gen_Consts C18_Model C18_StreamProofs C18_CodecProofs C18_HttpProofs.
+From Muduo Require Import Base_Bytes Gen_Consts C18_Model C18_StreamProofs C18_CodecProofs C18_HttpProofs C18_HttpRef.
 Import ListNotations.
 Local Open Scope Z_scope.
 
@@ -70,14 +70,13 @@ Lemma equals_reference :
       mkD tt rest (match e with Some _ => true | None => false end) false)))
   /\
   (forall chunks : list (list byte),
-    http_feed_all http_init chunks = feed hstep http_init (concat chunks)).
+    http_feed_all http_init chunks = ref_http (concat chunks)).
 Proof.
   split.
   - intros msg parse tag chunks. cbv zeta.
     rewrite (codec_equals_reference msg parse tag chunks).
     unfold of_ref, ref_events. destruct (ref_decode _ _ _ _ _) as [[ms e] rest]. reflexivity.
-  - intros chunks. rewrite (http_feed_all_eq chunks http_init live_ctx0).
-    apply hstep_seg_invariant.
+  - exact http_equals_reference.
 Qed.
 
 Lemma roundtrip :
